@@ -8,6 +8,10 @@ def run(chk):
     lys = ("canon",)
     res = machine.tlc_family(chk, "FamBuiltin", chk.tier, layouts=lys)
     cases = machine.expand(res.cases, "bi", layouts=lys)
+    # behaviours the documentation leaves open (an argument at the edge of a domain, a number outside the exact
+    # model): "never a host crash or a hang" is still claimed for them
+    sound = machine.expand(res.cases, "bis", layouts=lys, sound_only=True)
+    chk.extra["never_goes_wrong_only_cases"] = len(sound)
     for c in cases:
         # the specification predicts the documented panic for a verb whose argument has the wrong type
         if c["class"].startswith("fmt") and "panic:badargs" in c["expect"]["result"] and len(c["expect"]["result"]) == 3:
@@ -20,7 +24,7 @@ def run(chk):
     chk.exhaustive = True
     # the documented examples: documentation, machine and implementation compared pairwise
     cases += docex.run(chk)
-    machine.replay_family(chk, cases)
+    machine.replay_family(chk, cases + sound)
     chk.assumptions += [
         "transcendental functions only at exactly representable points; upper/lower on ASCII only (no Unicode case tables in the model)",
         "printf: %v %s %q %t %f %% with the - and 0 prefixes, widths up to two digits and one-digit precision; %e, zero padding of negative numbers, precision on %q/%t and on %v of a number, width on composites are left open (unspec) because builtins.md does not settle them",
